@@ -116,7 +116,13 @@ class Scanner:
                 break
 
     def error(self, message: str) -> Never:
-        token = Token(TokenKind.ERROR, self.grammar[self.pos], self.start, self.grammar)
+        # At the end of the grammar there is no offending character to show.
+        token = Token(
+            TokenKind.ERROR,
+            self.grammar[self.pos : self.pos + 1],
+            min(self.start, len(self.grammar)),
+            self.grammar,
+        )
         raise PestGrammarSyntaxError(message, token=token)
 
     def scan_grammar(self) -> StateFn | None:
